@@ -149,3 +149,85 @@ func runC09_7(c *core.Ctx) {
 		}
 	}
 }
+
+func init() {
+	register(&core.Rule{ID: "C09.8", Prop: "C09", MinSites: 2,
+		Desc: "a reader is never offered unread bytes: the destination rb.buf[rb.w:…] of an external Read is open-ended only where rb.w >= rb.r is established (the free space runs to the physical end); otherwise it ends at rb.r",
+		Run: runC09_8})
+}
+
+func runC09_8(c *core.Ctx) {
+	a := ringAnchors(c)
+	if a == nil {
+		return
+	}
+	for _, f := range a.funcs {
+		g := f.Graph()
+		const fWGeR = 1
+		p := &flow.Problem{Must: true}
+		p.Node = func(b *flow.Block, i int, n ast.Node, in uint64) uint64 {
+			for _, l := range flow.Assigned(n) {
+				if fl := flow.FieldOf(f.Info, l); fl == a.r || fl == a.w {
+					in = 0
+				}
+			}
+			for _, call := range flow.Calls(n) {
+				if flow.IsCall(f.Info, call, a.grow) || flow.IsCall(f.Info, call, a.reset) {
+					in = 0
+				}
+			}
+			return in
+		}
+		p.Edge = func(e *flow.Edge, in uint64) uint64 {
+			if e.Cond == nil || e.Tag != nil {
+				return in
+			}
+			x, y, op, ok := flow.Cmp(e.Cond)
+			if !ok {
+				return in
+			}
+			xw, xr := flow.FieldOf(f.Info, x) == a.w, flow.FieldOf(f.Info, x) == a.r
+			yw, yr := flow.FieldOf(f.Info, y) == a.w, flow.FieldOf(f.Info, y) == a.r
+			switch {
+			case xw && yr: // w OP r
+				if (op == token.GEQ && e.Sense) || (op == token.LSS && !e.Sense) || (op == token.GTR && e.Sense) || (op == token.EQL && e.Sense) {
+					in |= fWGeR
+				}
+			case xr && yw: // r OP w
+				if (op == token.LEQ && e.Sense) || (op == token.GTR && !e.Sense) || (op == token.LSS && e.Sense) || (op == token.EQL && e.Sense) {
+					in |= fWGeR
+				}
+			}
+			return in
+		}
+		sol := g.Solve(p)
+		k := 0
+		sol.Walk(func(b *flow.Block, i int, n ast.Node, before uint64) {
+			for _, call := range flow.Calls(n) {
+				if len(call.Args) != 1 {
+					continue
+				}
+				se, ok := ast.Unparen(call.Args[0]).(*ast.SliceExpr)
+				if !ok || flow.FieldOf(f.Info, se.X) != a.buf {
+					continue
+				}
+				cf := flow.CalleeFunc(f.Info, call)
+				if cf == nil || cf.Pkg() == nil || cf.Pkg().Path() != "io" || cf.Name() != "Read" {
+					continue
+				}
+				k++
+				construct := "Read destination #" + itoa(k) + " bounded"
+				switch {
+				case se.Low == nil || flow.FieldOf(f.Info, se.Low) != a.w:
+					c.Violate(f.Name, construct, se.Pos(), "the destination "+exprStr(se)+" of an external Read does not start at rb.w")
+				case se.High != nil && flow.FieldOf(f.Info, se.High) == a.r:
+					c.Ok(f.Name, construct, se.Pos(), "ends at rb.r")
+				case se.High == nil && before&fWGeR != 0:
+					c.Ok(f.Name, construct, se.Pos(), "open-ended under rb.w >= rb.r")
+				default:
+					c.Violate(f.Name, construct, se.Pos(), "the reader is offered "+exprStr(se)+" where rb.w >= rb.r is not established: when the write cursor has wrapped in front of the read cursor this slice covers the unread bytes rb.buf[rb.r:], which the reader overwrites, and rb.w moves past rb.r (Buffered() collapses, earlier bytes are lost)")
+				}
+			}
+		})
+	}
+}
